@@ -107,5 +107,9 @@ Definition fetch_from_archive (arcs : list arc) (id from until now : Z) : fetch_
     end.
 
 (** [TimeSeries.Points]: times of the points *)
-Definition series_times (s : series) : list Z :=
-  map (fun i => ts_add (s_from s) (i32 (Z.of_nat i * s_step s))) (seq 0 (length (s_vals s))).
+Fixpoint series_times_from (from step i : Z) (vs : list Z) : list Z :=
+  match vs with
+  | [] => []
+  | _ :: r => ts_add from (i32 (i * step)) :: series_times_from from step (i + 1) r
+  end.
+Definition series_times (s : series) : list Z := series_times_from (s_from s) (s_step s) 0 (s_vals s).
